@@ -65,4 +65,15 @@ Definition dispatch_http (op : Z) (a : val) : option val :=
           VL (map vstr (spec_window items (Z.min l n) (Z.min f n))))
   else if op =? 1611 then   (* spec: response bytes -> [] | [body] *)
     Some (vopt_str (response_body (as_str a)))
+  else if op =? 1612 then   (* spec: key -> can any header present it (no white space at its ends)? *)
+    Some (vbool (key_presentable (as_str a)))
+  else if op =? 1613 then   (* spec: stream -> the key the complete request presents *)
+    Some (vstr (spec_presented_key (as_str a)))
+  else if op =? 1614 then   (* [address, FZF_API_KEY, state, verdict, ready, chunks] -> [] (no listener) | [outcome of the connection] *)
+    Some (match serve (as_str (arg a 0)) (as_str (arg a 1)) (as_str (arg a 2)) (fun _ => as_verdict (arg a 3))
+                      (as_bool (arg a 4)) (as_strs (arg a 5)) with
+          | Ok None => VL []
+          | Ok (Some o) => VL [v_outcome o]
+          | Err _ => verr
+          end)
   else None.
